@@ -2,6 +2,7 @@ package inspect
 
 import (
 	"fmt"
+	"strings"
 
 	"github.com/bmeg/grip/gripql"
 	"github.com/bmeg/grip/jsonpath"
@@ -77,24 +78,138 @@ func PipelineAsSteps(stmts []*gripql.GraphStatement) map[string]string {
 }
 
 // PipelineStepOutputs identify the required outputs for each step in the traversal
+// hasExpressionKeys lists the field references of a has-expression
+func hasExpressionKeys(stmt *gripql.HasExpression) []string {
+	out := []string{}
+	if stmt == nil {
+		return out
+	}
+	if cond := stmt.GetCondition(); cond != nil {
+		out = append(out, cond.Key)
+	}
+	if and := stmt.GetAnd(); and != nil {
+		for _, e := range and.Expressions {
+			out = append(out, hasExpressionKeys(e)...)
+		}
+	}
+	if or := stmt.GetOr(); or != nil {
+		for _, e := range or.Expressions {
+			out = append(out, hasExpressionKeys(e)...)
+		}
+	}
+	if not := stmt.GetNot(); not != nil {
+		out = append(out, hasExpressionKeys(not)...)
+	}
+	return out
+}
+
+// templateKeys lists the field references (string leaves) of a render template
+func templateKeys(template interface{}) []string {
+	out := []string{}
+	switch elem := template.(type) {
+	case string:
+		out = append(out, elem)
+	case map[string]interface{}:
+		for _, v := range elem {
+			out = append(out, templateKeys(v)...)
+		}
+	case []interface{}:
+		for _, v := range elem {
+			out = append(out, templateKeys(v)...)
+		}
+	}
+	return out
+}
+
+// aggregateKeys lists the fields read by an aggregation step
+func aggregateKeys(aggs *gripql.Aggregations) []string {
+	out := []string{}
+	for _, a := range aggs.GetAggregations() {
+		switch agg := a.Aggregation.(type) {
+		case *gripql.Aggregate_Term:
+			out = append(out, agg.Term.GetField())
+		case *gripql.Aggregate_Histogram:
+			out = append(out, agg.Histogram.GetField())
+		case *gripql.Aggregate_Percentile:
+			out = append(out, agg.Percentile.GetField())
+		case *gripql.Aggregate_Field:
+			out = append(out, agg.Field.GetField())
+		case *gripql.Aggregate_Type:
+			out = append(out, agg.Type.GetField())
+		}
+	}
+	return out
+}
+
 func PipelineStepOutputs(stmts []*gripql.GraphStatement) map[string][]string {
 
 	steps := PipelineSteps(stmts)
 	asMap := PipelineAsSteps(stmts)
+	//a mark name can be defined more than once, a reference may see any of them
+	asSteps := map[string][]string{}
+	for i, gs := range stmts {
+		if stmt, ok := gs.GetStatement().(*gripql.GraphStatement_As); ok {
+			asSteps[stmt.As] = append(asSteps[stmt.As], steps[i])
+		}
+	}
 	onLast := true
 	out := map[string][]string{}
+	needMark := func(mark string) {
+		for _, a := range asSteps[mark] {
+			out[a] = []string{"*"}
+		}
+	}
+	//mark that the step (current element, or the step a mark was taken at)
+	//referenced by each field needs its data loaded
+	needFields := func(i int, fields []string) {
+		for _, f := range fields {
+			n := jsonpath.GetNamespace(strings.TrimPrefix(f, "-"))
+			if n == jsonpath.Current {
+				out[steps[i]] = []string{"*"}
+			} else {
+				needMark(n)
+			}
+		}
+	}
 	for i := len(stmts) - 1; i >= 0; i-- {
 		gs := stmts[i]
+		switch stmt := gs.GetStatement().(type) {
+		case *gripql.GraphStatement_Render:
+			needFields(i, templateKeys(stmt.Render.AsInterface()))
+		case *gripql.GraphStatement_HasKey:
+			needFields(i, protoutil.AsStringList(stmt.HasKey))
+		case *gripql.GraphStatement_Fields, *gripql.GraphStatement_Unwind:
+			//these copy the data of the current element
+			out[steps[i]] = []string{"*"}
+		case *gripql.GraphStatement_Aggregate:
+			needFields(i, aggregateKeys(stmt.Aggregate))
+		case *gripql.GraphStatement_Set:
+			needFields(i, []string{stmt.Set.GetKey()})
+		case *gripql.GraphStatement_Increment:
+			needFields(i, []string{stmt.Increment.GetKey()})
+		case *gripql.GraphStatement_Jump:
+			needFields(i, hasExpressionKeys(stmt.Jump.GetExpression()))
+		}
 		switch gs.GetStatement().(type) {
 		case *gripql.GraphStatement_Count:
 			onLast = false
 		case *gripql.GraphStatement_Select:
+			if !onLast {
+				//a later step reads the data of the selected element,
+				//which was loaded (or not) where the mark was taken
+				if _, ok := out[steps[i]]; ok {
+					for _, s := range gs.GetSelect().Marks {
+						needMark(s)
+					}
+				}
+			}
 			if onLast {
 				sel := gs.GetSelect().Marks
 				for _, s := range sel {
 					if a, ok := asMap[s]; ok {
 						out[a] = []string{"*"}
 					}
+					needMark(s)
 				}
 				onLast = false
 			}
@@ -109,6 +224,7 @@ func PipelineStepOutputs(stmts []*gripql.GraphStatement) map[string][]string {
 				if a, ok := asMap[n]; ok {
 					out[a] = []string{"*"}
 				}
+				needMark(n)
 			}
 		case *gripql.GraphStatement_V, *gripql.GraphStatement_E,
 			*gripql.GraphStatement_Out, *gripql.GraphStatement_In,
@@ -131,6 +247,7 @@ func PipelineStepOutputs(stmts []*gripql.GraphStatement) map[string][]string {
 				out[steps[i]] = []string{"_label"}
 			}
 		case *gripql.GraphStatement_Has:
+			needFields(i, hasExpressionKeys(gs.GetHas()))
 			out[steps[i]] = []string{"*"}
 		}
 	}
